@@ -19,7 +19,7 @@ PROPERTIES = {
         out=['duke/src/class_reader.rs read_annotations_attribute / read_element_value* / read_type_annotations_* / read_module / read_record_component content', 'duke/src/class_reader/pool.rs get_loadable recursion through bootstrap methods',
              'duke/src/visitor/implementations/tree.rs (tree-building visitor)']),
     'C02': dict(
-        level='proof', verus=['cwrite', 'wjump', 'wpool', 'wencode', 'wattrs', 'wtypes', 'wannot', 'wput', 'wfrom'], kani=['flags'], enum=['cls'],
+        level='proof', verus=['cwrite', 'wjump', 'wpool', 'wencode', 'wattrs', 'wtypes', 'wannot', 'wput', 'wfrom', 'warms'], kani=['flags'], enum=['cls'],
         technique=VERUS_TECH,
         claim='Unbounded proof, for the functions under contract only: every jump emitted by if_helper/goto_helper/switch_helper has exactly the narrow / wide / inverted-if+goto_w byte shape with the offset that lands on the label, '
               'the narrow form is chosen iff the offset fits i16, unresolved jumps reserve a slot whose recorded patch position and base are exact, put_i16_at/put_i32_at patch big-endian and touch nothing else, '
@@ -175,7 +175,7 @@ PROPERTIES = {
              'Bounded stand-in for the name predicates and as a second opinion on the parsers: native enumeration against an independent oracle (kx/enum).',
         out=['duke/src/tree/mod.rs names::is_valid_* (assumed / bounded only)', 'duke/src/tree/class.rs, field.rs, method.rs check_valid wrappers', 'unicode names beyond the bounded alphabet', 'signatures (check_valid accepts everything)']),
     'C16': dict(
-        level='proof', verus=['rlabels', 'cwrite', 'wjump', 'wpool', 'wencode', 'wattrs', 'wtypes', 'wannot', 'wput', 'wfrom', 'rskip', 'rbranch', 'rscan', 'rpool', 'rdecode', 'rframes', 'rattrs', 'rtables', 'raccept', 'rtree', 'rarms', 'rtypes', 'rpoolres', 'rannot', 'aaccept', 'abuild', 'adiff', 'scope', 'c20len', 'desc', 'inner', 'mergeord', 'tinyesc'], kani=[], enum=['desc', 'mapdesc', 'cls', 'enigma', 'nestio', 'tinyio'],
+        level='proof', verus=['rlabels', 'cwrite', 'wjump', 'wpool', 'wencode', 'wattrs', 'wtypes', 'wannot', 'wput', 'wfrom', 'warms', 'rskip', 'rbranch', 'rscan', 'rpool', 'rdecode', 'rframes', 'rattrs', 'rtables', 'raccept', 'rtree', 'rarms', 'rtypes', 'rpoolres', 'rannot', 'aaccept', 'abuild', 'adiff', 'scope', 'c20len', 'desc', 'inner', 'mergeord', 'tinyesc'], kani=[], enum=['desc', 'mapdesc', 'cls', 'enigma', 'nestio', 'tinyio'],
         technique=VERUS_TECH + ': implicit safety obligations (overflow, index, unwrap, unreachable, termination)',
         claim='Unbounded proof of panic-freedom and termination for every function extracted for the other properties (Verus generates no-overflow, in-bounds, no-failing-unwrap, unreachable!() unreachable, decreases obligations for each). '
               'This includes the descriptor parsers (read_field_type, the three parse functions, get_arguments_size) on arbitrary text. Partial: the line-oriented text parsers built on BufRead are outside the verifier and not covered.',
